@@ -874,9 +874,7 @@ Qed.
 Definition c17_seg_bounds (fp : vfp) : bool :=
   (0 <=? f_seg_len_bytes fp) && (f_seg_len_bytes fp <=? f_tx_len fp).
 
-(* the step does not report a transport error *)
-Definition c17_not_err_send (r : fresult) : bool :=
-  match r with FrPoll (PollReadyErr ErrSend) _ _ _ => false | _ => true end.
+(* c17_not_err_send: Conn/C17_Pred.v *)
 
 Lemma FAD_bool (s' : vsock) :
   FAD s' -> c17_seg_bounds (fp_of_vsock cci s') = true ->
@@ -1462,8 +1460,7 @@ Proof.
   intros cfg s o H Hg. apply c17_fin_after_data_ok_step_gen; [|exact Hg]. apply c17_seg_bounds_step. exact H.
 Qed.
 
-Definition c17_fin_after_data_noerr (cfg : vconfig) (st : fstep) : bool :=
-  if c17_not_err_send (fs_result st) then c17_fin_after_data_ok cfg st else true.
+(* c17_fin_after_data_noerr: Conn/C17_Pred.v *)
 
 Theorem c17_fin_after_data_noerr_trace : forall mk cfg (s0 : vsock) ops,
   C10_Pred.vconfig_ok cfg = true -> vsock_new cci mk cfg = Some s0 ->
